@@ -79,7 +79,7 @@ macro_rules! alu {
             let cost = $i.gas.$gas;
             $i.cost = cost;
             let spec: Spec = $spec;
-            let mut vm = mk_vm($i.regs, MemoryInstance::new(), $i.gas);
+            let mut vm = mk_vm($i.regs, MemoryInstance::new(), $i.gas.clone());
             let res = op::$Op::new($($arg),*).execute(&mut vm);
             let br = check_alu_step(&$i.regs, &vm.registers, &res, cost, $i.ra, spec, $i.probe);
             kani::cover!(br == 0, "out of gas");
@@ -102,8 +102,6 @@ alu!(c21_add, ADD, [rid(i.ra), rid(i.rb), rid(i.rc)], add, |i| overflow128(rb!(i
 alu!(c21_addi, ADDI, [rid(i.ra), rid(i.rb), Imm12::new(i.imm12)], addi, |i| overflow128(rb!(i) as u128 + i12!(i) as u128, fl!(i)));
 alu!(c21_sub, SUB, [rid(i.ra), rid(i.rb), rid(i.rc)], sub, |i| sub_spec(rb!(i), rc!(i), fl!(i)));
 alu!(c21_subi, SUBI, [rid(i.ra), rid(i.rb), Imm12::new(i.imm12)], subi, |i| sub_spec(rb!(i), i12!(i), fl!(i)));
-alu!(c21_mul, MUL, [rid(i.ra), rid(i.rb), rid(i.rc)], mul, |i| overflow128(rb!(i) as u128 * rc!(i) as u128, fl!(i)));
-alu!(c21_muli, MULI, [rid(i.ra), rid(i.rb), Imm12::new(i.imm12)], muli, |i| overflow128(rb!(i) as u128 * i12!(i) as u128, fl!(i)));
 alu!(c21_and, AND, [rid(i.ra), rid(i.rb), rid(i.rc)], and, false, |i| set(rb!(i) & rc!(i)));
 alu!(c21_andi, ANDI, [rid(i.ra), rid(i.rb), Imm12::new(i.imm12)], andi, false, |i| set(rb!(i) & i12!(i)));
 alu!(c21_or, OR, [rid(i.ra), rid(i.rb), rid(i.rc)], or, false, |i| set(rb!(i) | rc!(i)));
@@ -120,3 +118,264 @@ alu!(c21_gt, GT, [rid(i.ra), rid(i.rb), rid(i.rc)], gt, false, |i| set((rb!(i) >
 alu!(c21_lt, LT, [rid(i.ra), rid(i.rb), rid(i.rc)], lt, false, |i| set((rb!(i) < rc!(i)) as Word));
 alu!(c21_move, MOVE, [rid(i.ra), rid(i.rb)], move_op, false, |i| set(rb!(i)));
 alu!(c21_movi, MOVI, [rid(i.ra), Imm18::new(i.imm18)], movi, false, |i| set(i.imm18 as Word));
+
+// ---- multiplication at full width: the specification uses the same primitive operator (u128 `*`)
+// as the handler, so the solver compares how the product is *used* (result, $of, panic rule).
+alu!(c21_mul_full, MUL, [rid(i.ra), rid(i.rb), rid(i.rc)], mul, |i| overflow128((rb!(i) as u128).wrapping_mul(rc!(i) as u128), fl!(i)));
+alu!(c21_muli, MULI, [rid(i.ra), rid(i.rb), Imm12::new(i.imm12)], muli, |i| overflow128((rb!(i) as u128).wrapping_mul(i12!(i) as u128), fl!(i)));
+// bounded: both operands < 2^32 (never overflows) ...
+alu!(c21_mul_b32, MUL, [rid(i.ra), rid(i.rb), rid(i.rc)], mul, false, |i| {
+    kani::assume(rb!(i) < (1 << 32) && rc!(i) < (1 << 32));
+    set(rb!(i) * rc!(i))
+});
+// ... and one operand a power of two with the other at full width (overflow / $of region)
+alu!(c21_mul_pow2, MUL, [rid(i.ra), rid(i.rb), rid(i.rc)], mul, |i| {
+    let k: u32 = kani::any();
+    kani::assume(k < 64 && rc!(i) == 1u64 << k);
+    overflow128((rb!(i) as u128) << k, fl!(i))
+});
+
+// ---- harnesses whose specification is checked on the post-state (witness form) -------------
+/// Like `alu!`, but `$post` (the value the handler wrote to `ra`) is available to the spec, which
+/// returns (Spec, bool): the bool is an extra relation that must hold (e.g. q*c <= b < q*c + c).
+macro_rules! alu_post {
+    ($name:ident, $Op:ident, [$($arg:expr),*], $gas:ident, |$i:ident, $post:ident, $pof:ident| $spec:expr) => {
+        #[kani::proof]
+        #[kani::unwind(70)]
+        #[kani::stub(crate::constraints::reg_key::split_registers, split_registers_model)]
+        #[kani::stub(core::result::Result::expect, expect_model)]
+        #[kani::stub(core::result::Result::unwrap, unwrap_model)]
+        pub fn $name() {
+            let mut $i = any_in();
+            let cost = $i.gas.$gas;
+            $i.cost = cost;
+            let mut vm = mk_vm($i.regs, MemoryInstance::new(), $i.gas.clone());
+            let res = op::$Op::new($($arg),*).execute(&mut vm);
+            let $post = vm.registers[$i.ra];
+            let $pof = vm.registers[R_OF];
+            let (spec, rel): (Spec, bool) = $spec;
+            let br = check_alu_step(&$i.regs, &vm.registers, &res, cost, $i.ra, spec, $i.probe);
+            if br == 3 { assert!(rel, "result relation"); }
+            kani::cover!(br == 0, "out of gas");
+            kani::cover!(br == 1, "reserved register");
+            kani::cover!(br == 2, "specified panic");
+            kani::cover!(br == 3, "result written");
+            core::mem::forget(vm);
+        }
+    };
+}
+
+fn div_spec(b: Word, c: Word, flag: Word, q: Word) -> (Spec, bool) {
+    if c == 0 { return (err_or(true, flag, 0), true) }
+    // q == floor(b / c)  <=>  q*c <= b  and  b - q*c < c   (64-bit, no divider on the spec side)
+    match q.checked_mul(c) { Some(qc) => (set(q), qc <= b && b - qc < c), None => (set(q), false) }
+}
+fn mod_spec(b: Word, c: Word, flag: Word, r: Word) -> (Spec, bool) {
+    if c == 0 { return (err_or(true, flag, 0), true) }
+    // r == b mod c  <=>  r < c  and  c divides (b - r): witness quotient from the same operator
+    let q = b / c;
+    match q.checked_mul(c) { Some(qc) => (set(r), r < c && qc <= b && b - qc == r), None => (set(r), false) }
+}
+alu_post!(c21_div, DIV, [rid(i.ra), rid(i.rb), rid(i.rc)], div, |i, q, _of| div_spec(rb!(i), rc!(i), fl!(i), q));
+alu_post!(c21_divi, DIVI, [rid(i.ra), rid(i.rb), Imm12::new(i.imm12)], divi, |i, q, _of| div_spec(rb!(i), i12!(i), fl!(i), q));
+alu_post!(c21_mod, MOD, [rid(i.ra), rid(i.rb), rid(i.rc)], mod_op, |i, r, _of| mod_spec(rb!(i), rc!(i), fl!(i), r));
+alu_post!(c21_modi, MODI, [rid(i.ra), rid(i.rb), Imm12::new(i.imm12)], modi, |i, r, _of| mod_spec(rb!(i), i12!(i), fl!(i), r));
+
+/// b^e by repeated multiplication in u128, saturating to "overflow" once above u64::MAX (e <= 8).
+fn pow_ref(b: Word, e: Word) -> Option<Word> {
+    let mut acc: u128 = 1;
+    let mut k = 0;
+    while k < 8 {
+        if k < e {
+            acc = acc * b as u128;
+            if acc > Word::MAX as u128 { return None }
+        }
+        k += 1;
+    }
+    Some(acc as Word)
+}
+fn exp_spec(b: Word, e: Word, flag: Word) -> Spec {
+    let r = if b < 2 { Some(b_pow_small(b, e)) } else if e > u32::MAX as Word { None } else { pow_ref(b, e) };
+    match r {
+        Some(v) => Spec::Write { value: v, of: 0, err: 0 },
+        None => if flag_wrapping(flag) { Spec::Write { value: 0, of: 1, err: 0 } } else { Spec::Panic(PanicReason::ArithmeticOverflow) },
+    }
+}
+fn b_pow_small(b: Word, e: Word) -> Word { if b == 0 { if e == 0 { 1 } else { 0 } } else { 1 } }
+
+// EXP/EXPI: base < 2^16 and exponent < 8 (bound), plus the closed-form regions (base < 2 with any
+// exponent; exponent > u32::MAX with any base).
+// (the exponent register id is fixed to 0x12 and its value built as a 3-bit quantity so that the
+// handler's square-and-multiply loop has a syntactic bound for CBMC)
+alu!(c21_exp_small, EXP, [rid(i.ra), rid(i.rb), rid(i.rc)], exp, |i| {
+    i.rc = 0x12;
+    let e: u8 = kani::any();
+    i.regs[0x12] = (e & 7) as Word;
+    kani::assume(rb!(i) < (1 << 16));
+    exp_spec(rb!(i), rc!(i), fl!(i))
+});
+alu!(c21_exp_closed, EXP, [rid(i.ra), rid(i.rb), rid(i.rc)], exp, |i| {
+    kani::assume(rb!(i) < 2 || rc!(i) > u32::MAX as Word);
+    kani::assume(rc!(i) > u32::MAX as Word || rc!(i) < 8);
+    exp_spec(rb!(i), rc!(i), fl!(i))
+});
+alu!(c21_expi_small, EXPI, [rid(i.ra), rid(i.rb), Imm12::new(i.imm12)], expi, |i| {
+    kani::assume(rb!(i) < (1 << 16) && i.imm12 < 8);
+    exp_spec(rb!(i), i12!(i), fl!(i))
+});
+
+// MLOG: b < 2^16 (bound); result r is the unique value with c^r <= b < c^(r+1).
+alu_post!(c21_mlog, MLOG, [rid(i.ra), rid(i.rb), rid(i.rc)], mlog, |i, r, _of| {
+    let (b, c) = (rb!(i), rc!(i));
+    kani::assume(b < (1 << 16));
+    if b == 0 || c <= 1 {
+        (err_or(true, fl!(i), 0), true)
+    } else {
+        // c >= 2 and b < 2^16  =>  r <= 15; powers computed in u128 by at most 17 multiplications
+        let mut lo: u128 = 1; // c^r
+        let mut k = 0;
+        while k < 17 { if (k as Word) < r { lo = lo.saturating_mul(c as u128); } k += 1; }
+        let hi = lo.saturating_mul(c as u128);
+        (set(r), r <= 15 && lo <= b as u128 && (b as u128) < hi)
+    }
+});
+
+// MLDV: (b*c)/d with 128-bit intermediate; d == 0 means divide by 2^64.  Bound: b, c, d < 2^16
+// for the quotient relation; the d == 0 branch is decided at full width.
+alu_post!(c21_mldv, MLDV, [rid(i.ra), rid(i.rb), rid(i.rc), rid(i.rd)], mldv, |i, q, of| {
+    let (b, c, d) = (rb!(i), rc!(i), rd!(i));
+    let prod = (b as u128).wrapping_mul(c as u128);
+    if d == 0 {
+        let k: u32 = kani::any();
+        kani::assume(k < 64 && c == 1u64 << k);
+        let prod = (b as u128) << k;
+        (Spec::Write { value: (prod >> 64) as Word, of: 0, err: 0 }, true)
+    } else {
+        kani::assume(b < (1 << 16) && c < (1 << 16) && d < (1 << 16));
+        // with these bounds the quotient fits in 64 bits: $of must be 0
+        let qd = q as u128 * d as u128;
+        (Spec::Write { value: q, of: 0, err: 0 }, qd <= prod && prod < qd + d as u128)
+    }
+});
+alu_post!(c21_mldv_overflow, MLDV, [rid(i.ra), rid(i.rb), rid(i.rc), rid(i.rd)], mldv, |i, q, of| {
+    // overflow region: d == 1, result = b*c (128 bit): low word to ra, high word to $of,
+    // panic iff high word != 0 and not wrapping
+    let (b, c, d) = (rb!(i), rc!(i), rd!(i));
+    let k: u32 = kani::any();
+    kani::assume(d == 1 && k < 64 && c == 1u64 << k);
+    let prod = (b as u128) << k;
+    if (prod >> 64) != 0 && !flag_wrapping(fl!(i)) {
+        (Spec::Panic(PanicReason::ArithmeticOverflow), true)
+    } else {
+        (Spec::Write { value: prod as Word, of: (prod >> 64) as Word, err: 0 }, true)
+    }
+});
+
+// NOOP / FLAG: no destination register.
+macro_rules! vmh {
+    ($name:ident, $body:block) => {
+        #[kani::proof]
+        #[kani::unwind(70)]
+        #[kani::stub(crate::constraints::reg_key::split_registers, split_registers_model)]
+        #[kani::stub(core::result::Result::expect, expect_model)]
+        #[kani::stub(core::result::Result::unwrap, unwrap_model)]
+        pub fn $name() $body
+    };
+}
+/// Gas pre-check shared by the custom harnesses: returns Some(expected registers after the charge)
+/// or None if the step must be OutOfGas (and asserts that it was).
+pub(crate) fn charge<E>(pre: &[Word; VM_REGISTER_COUNT], post: &[Word; VM_REGISTER_COUNT],
+    res: &Result<ExecuteState, RuntimeError<E>>, cost: Word, probe: usize) -> Option<[Word; VM_REGISTER_COUNT]> {
+    let mut exp = *pre;
+    if cost > pre[R_CGAS] {
+        assert!(matches!(res, Err(RuntimeError::Recoverable(PanicReason::OutOfGas))));
+        exp[R_CGAS] = 0; exp[R_GGAS] = pre[R_GGAS] - pre[R_CGAS];
+        assert!(post[probe] == exp[probe]);
+        return None
+    }
+    exp[R_CGAS] -= cost; exp[R_GGAS] -= cost;
+    Some(exp)
+}
+vmh!(c21_noop, {
+    let i = any_in();
+    let cost = i.gas.noop;
+    let mut vm = mk_vm(i.regs, MemoryInstance::new(), i.gas.clone());
+    let res = op::NOOP::new().execute(&mut vm);
+    if let Some(mut exp) = charge(&i.regs, &vm.registers, &res, cost, i.probe) {
+        assert!(matches!(res, Ok(ExecuteState::Proceed)));
+        exp[R_OF] = 0; exp[R_ERR] = 0; exp[R_PC] = i.regs[R_PC] + 4;
+        assert!(vm.registers[i.probe] == exp[i.probe]);
+        kani::cover!(true, "noop executed");
+    } else { kani::cover!(true, "out of gas"); }
+    core::mem::forget(vm);
+});
+vmh!(c21_flag, {
+    let mut i = any_in();
+    let cost = i.gas.flag;
+    i.cost = cost;
+    let a = i.src(i.ra);
+    let mut vm = mk_vm(i.regs, MemoryInstance::new(), i.gas.clone());
+    let res = op::FLAG::new(rid(i.ra)).execute(&mut vm);
+    if let Some(mut exp) = charge(&i.regs, &vm.registers, &res, cost, i.probe) {
+        if a & !0x03 != 0 {
+            assert!(matches!(res, Err(RuntimeError::Recoverable(PanicReason::InvalidFlags))));
+            kani::cover!(true, "invalid flags");
+        } else {
+            assert!(matches!(res, Ok(ExecuteState::Proceed)));
+            exp[R_FLAG] = a; exp[R_PC] = i.regs[R_PC] + 4;
+            kani::cover!(true, "flags set");
+        }
+        assert!(vm.registers[i.probe] == exp[i.probe]);
+    }
+    core::mem::forget(vm);
+});
+
+// NIOP: narrow-integer operations; one harness per (operation, width); immediate concrete.
+fn niop_mask(w: u8) -> Word { match w { 0 => 0xff, 1 => 0xffff, _ => 0xffff_ffff } }
+fn niop_bits(w: u8) -> u32 { match w { 0 => 8, 1 => 16, _ => 32 } }
+fn niop_spec(opk: u8, w: u8, b: Word, c: Word, flag: Word) -> Spec {
+    let (m, bits) = (niop_mask(w), niop_bits(w));
+    let (l, r) = (b & m, c & m);
+    let (value, of): (Word, Word) = match opk {
+        0 => { let s = l + r; (s & m, s >> bits) }
+        1 => (l.wrapping_sub(r) & m, if l < r { Word::MAX } else { 0 }),
+        2 => { let p = l * r; (p & m, p >> bits) }
+        3 => { // exponent bounded by the harness to < 8
+            match pow_ref(l, r) { Some(v) if v <= m => (v, 0), _ => (0, 1) }
+        }
+        4 => ((if r < 64 { l << r } else { 0 }) & m, 0),
+        _ => (!(l ^ r) & m, 0),
+    };
+    if of != 0 && !flag_wrapping(flag) { Spec::Panic(PanicReason::ArithmeticOverflow) } else { Spec::Write { value, of, err: 0 } }
+}
+macro_rules! niop {
+    ($name:ident, $opk:literal, $w:literal, $can_panic:literal) => {
+        alu!($name, NIOP, [rid(i.ra), rid(i.rb), rid(i.rc), Imm06::new($opk | ($w << 4))], niop, $can_panic, |i| {
+            // rc is fixed: its low bits share a byte with the immediate in the RRRI06 encoding, and a
+            // symbolic rc makes the (constant) operation selector symbolic for CBMC
+            i.rc = 0x12;
+            if $opk == 3 { let e: u8 = kani::any(); i.regs[0x12] = (i.regs[0x12] & !niop_mask($w)) | (e & 7) as Word; }
+            niop_spec($opk, $w, rb!(i), rc!(i), fl!(i))
+        });
+    };
+}
+niop!(c21_niop_add_u8, 0, 0, true);  niop!(c21_niop_add_u16, 0, 1, true);  niop!(c21_niop_add_u32, 0, 2, true);
+niop!(c21_niop_sub_u8, 1, 0, true);  niop!(c21_niop_sub_u16, 1, 1, true);  niop!(c21_niop_sub_u32, 1, 2, true);
+niop!(c21_niop_mul_u8, 2, 0, true);  niop!(c21_niop_mul_u16, 2, 1, true);  niop!(c21_niop_mul_u32, 2, 2, true);
+niop!(c21_niop_exp_u8, 3, 0, true);  niop!(c21_niop_exp_u16, 3, 1, true);  niop!(c21_niop_exp_u32, 3, 2, true);
+niop!(c21_niop_sll_u8, 4, 0, false); niop!(c21_niop_sll_u16, 4, 1, false); niop!(c21_niop_sll_u32, 4, 2, false);
+niop!(c21_niop_xnor_u8, 5, 0, false); niop!(c21_niop_xnor_u16, 5, 1, false); niop!(c21_niop_xnor_u32, 5, 2, false);
+// invalid immediates (operation 6..15 or width 3) panic with InvalidImmediateValue
+vmh!(c21_niop_invalid_imm, {
+    let i = any_in();
+    let cost = i.gas.niop;
+    kani::assume((i.imm06 & 0x0f) > 5 || (i.imm06 >> 4) == 3);
+    let mut vm = mk_vm(i.regs, MemoryInstance::new(), i.gas.clone());
+    let res = op::NIOP::new(rid(i.ra), rid(i.rb), rid(i.rc), Imm06::new(i.imm06)).execute(&mut vm);
+    if let Some(exp) = charge(&i.regs, &vm.registers, &res, cost, i.probe) {
+        assert!(matches!(res, Err(RuntimeError::Recoverable(PanicReason::InvalidImmediateValue))));
+        assert!(vm.registers[i.probe] == exp[i.probe]);
+        kani::cover!(true, "invalid immediate");
+    }
+    core::mem::forget(vm);
+});
